@@ -37,12 +37,20 @@ def run(chk):
         # uneven partition sizes (from_sequence only makes equal ones): built from delayed lists
         uneven = [(1, n - 3, 2), (2, 1, n - 3)] + [gen.random_composition(r, n, 5) for _ in range(1 if chk.tier == "quick" else 6)]
         uneven = [u for u in dict.fromkeys(uneven) if len(set(u)) > 1 and min(u) >= 1 and sum(u) == n]
+        # empty partitions (an empty remainder after a repartition / filter), first, in the middle and last
+        uneven += [(0, n), (2, 0, n - 2), (n - 1, 1, 0)]
 
         def bag_of(k):
+            if isinstance(k, tuple) and k[0] == "lazy":
+                # partitions that are one-shot iterables (generators), as map_partitions with a generator expression produces
+                return dask.bag.from_sequence(stats, npartitions=k[1]).map_partitions(lambda ch: (copy.copy(x) for x in ch))
             if isinstance(k, tuple):
                 return dask.bag.from_delayed([dask_delayed(list)(blk) for blk in gen.split_rows(stats, k)])
             return dask.bag.from_sequence(stats, npartitions=k)
         nparts = nparts + uneven
+        # one-shot generator partitions: only for the i-vector trainer (it iterates its partitions; ISV/JFA call len() on them and refuse
+        # generators loudly) and only with shared memory (a generator cannot be serialised by any executor)
+        lazy = [("lazy", 2), ("lazy", max(2, n - 2))]
         # ------------------------------------------------------------ ISV / JFA
         for kind in ("isv", "jfa"):
             def mk():
@@ -61,7 +69,7 @@ def run(chk):
                         except Exception as e:
                             chk.fail("%s.fit(bag with %s partitions) raises %r" % (kind.upper(), k, e), dict(ctx, kind=kind, npartitions=k, isolated=iso, order_seed=sd))
                             continue
-                        chk.count(1, key=(kind, (k % 2) if isinstance(k, int) else "uneven", iso))
+                        chk.count(1, key=(kind, (k % 2) if isinstance(k, int) else ("lazy" if k[0] == "lazy" else "uneven"), iso))
                         bad = [nm for nm, a, b in (("U", m.U, ref.U), ("D", m.D, ref.D)) + ((("V", m.V, ref.V),) if kind == "jfa" else ()) if not close(a, b)]
                         if bad:
                             chk.fail("%s trained from a bag with %s partitions differs from the in-memory list in %s (order seed %d, isolated=%s)"
@@ -72,8 +80,8 @@ def run(chk):
         upd = bool(rd % 2)
         seed = r.randint(0, 10 ** 6)
         ref = iv.fit_machine(ubm, stats, t, 2, upd, 1e-10, seed)
-        for k in nparts:
-            for iso in (False, True):
+        for k in nparts + lazy:
+            for iso in ((False,) if isinstance(k, tuple) and k[0] == "lazy" else (False, True)):
                 for sd in seeds[:2]:
                     def jobi():
                         return iv.fit_machine(ubm, bag_of(k), t, 2, upd, 1e-10, seed)
@@ -82,7 +90,7 @@ def run(chk):
                     except Exception as e:
                         chk.fail("IVectorMachine.fit(bag with %s partitions) raises %r" % (k, e), dict(ctx, npartitions=k, isolated=iso))
                         continue
-                    chk.count(1, key=("ivector", (k % 2) if isinstance(k, int) else "uneven", iso))
+                    chk.count(1, key=("ivector", (k % 2) if isinstance(k, int) else ("lazy" if k[0] == "lazy" else "uneven"), iso))
                     if not (close(m.T, ref.T) and close(m.sigma, ref.sigma)):
                         chk.fail("i-vector extractor trained from a bag with %s partitions differs from the in-memory list (order seed %d, isolated=%s)" % (k, sd, iso),
                                  dict(ctx, npartitions=k, isolated=iso, order_seed=sd, update_sigma=upd, executed_order=sch.orders[-1] if sch.orders else []))
@@ -102,6 +110,6 @@ def run(chk):
     chk.correspondence("IVectorMachine.fit(dask.bag) ~ IF.fit on the bag's own partition structure (tree reduction)", len(fterms), bad, info)
     return chk.finish(
         rule="4..9 labelled statistics with shuffled labels; bags with 1,2,3,n-1,n partitions (every 1..n in the thorough tier: odd and even reduction lengths, "
-             "single-element and mixed-class partitions); shuffled task orders; shared vs cloudpickle-isolated; ISV, JFA, i-vector; each compared with the in-memory "
+             "single-element and mixed-class partitions, uneven sizes, partitions that are one-shot generators); shuffled task orders; shared vs cloudpickle-isolated; ISV, JFA, i-vector; each compared with the in-memory "
              "list fit; distinct = (trainer, parity of #partitions, isolated)",
         trusted=["custom Dask scheduler harness/dasksched.py"])
